@@ -69,6 +69,10 @@ def run(R):
                       "a variable, it first looks that variable up in the same solution - it binds only when absent and compares (and "
                       "rejects on mismatch) when present; match_quad stages fresh bindings only for variables that are bound neither in "
                       "the incoming solution nor earlier in the same pattern")
+    R.rule("C01-R13", "GRAPH ?g visits every visible named graph: for an unbound graph variable the executor runs the inner pattern once per "
+                      "named graph of the query dataset (all of them, no truncation) with ?g bound to that graph; an iteration is skipped only "
+                      "because the graph does not exist or is not a named graph; for a bound ?g the pattern runs iff that graph is visible "
+                      "and exists")
     R.rule("C01-R7", "plan memo completeness (shared with C02-R1): two different sub-plans of one query never share a memo entry")
     r1(R)
     r2(R)
@@ -82,6 +86,7 @@ def run(R):
     r10(R)
     r11(R)
     r12(R)
+    r13(R)
 
 
 def r1(R):
@@ -967,3 +972,46 @@ def _aliases_of_call(b, c):
             if not pl["p"] and rv["rv"] == "use" and F.op_place(rv["op"]) is not None and F.op_place(rv["op"])["l"] in out and not F.op_place(rv["op"])["p"]:
                 out.add(pl["l"])
     return out
+
+
+def r13(R):
+    prog = R.prog
+    b = R.body("C01-R13", "ExecutionEngine::execute_graph_with_ids", crate="kolibrie")
+    if b is None:
+        return
+    R.saw(b)
+    lo = P.loops_over(b, ["visible_graphs", "incoming"])
+    vg = sorted(lo.get("visible_graphs", []), key=lambda x: len(x[1]))
+    R.ob("C01-R13", "loop", "the Variable arm iterates over the visible named graphs", len(vg) >= 1, where=b.where())
+    if not vg:
+        return
+    h, blocks, names = vg[0]
+    whole = not [n for n in names if n not in ("iter", "into_iter", "deref")]
+    R.ob("C01-R13", "whole", "the loop ranges over every visible graph (pipeline %s)" % names, whole, where=b.where())
+    # where the list comes from: the dataset's named graphs, without truncation (sorting is fine)
+    src_ok = False
+    for c in b.calls():
+        if c.name() == "collect" and b.local_name(c.dest["l"]) == "visible_graphs":
+            n2, r2 = P.flat(P.tree(b, c.args[0], stop_named=False))
+            if any(r["k"] == "root" and "named_graphs" in r["fields"] for r in r2) and not [x for x in n2 if x in ("take", "skip", "filter", "step_by", "take_while", "skip_while")]:
+                src_ok = True
+    R.ob("C01-R13", "source", "the visible graphs are all named graphs of the query dataset", src_ok, where=b.where())
+    rec = [c for c in b.calls() if c.bb in blocks and c.key and c.key.endswith("execute_with_ids_and_input")]
+    R.ob("C01-R13", "executes", "each visited graph runs the inner pattern (found %d call)" % len(rec), len(rec) >= 1, where=b.where())
+    if rec:
+        skips = P.skip_edges(b, h, blocks, {c.bb for c in rec})
+        bad = []
+        for bb, tgt, cd in skips:
+            if cd.get("kind") == "call" and cd["call"].name() in ("graph_exists", "is_named_visible") and cd.get("truth") is False:
+                continue
+            if cd.get("kind") == "variant" and (cd.get("adt") or "").endswith("GraphId"):
+                continue
+            if cd.get("kind") == "variant" and cd.get("variant") in ("None",) and "Option" in (cd.get("adt") or ""):
+                continue        # iterator exhausted
+            bad.append("%s%s" % (cd.get("kind"), ":" + cd["call"].name() if cd.get("kind") == "call" else ""))
+        R.ob("C01-R13", "skips", "a graph is skipped only because it does not exist / is not a named graph (other skip conditions: %s)" % bad, not bad,
+             where=b.where(rec[0].ln), detail=None if not bad else "a visible named graph that is skipped for another reason loses its solutions")
+        # ?g is bound to the visited graph in the row handed down
+        ins = [c for c in b.calls() if c.bb in blocks and c.name() == "insert" and _is_row(b, c.args[0])]
+        R.ob("C01-R13", "binds-g", "the row handed to the inner pattern binds ?g to the visited graph", len(ins) >= 1 and all(b.dominates(i.bb, r.bb) for i in ins for r in rec),
+             where=b.where(rec[0].ln))
